@@ -984,7 +984,7 @@ impl Constant {
     pub fn to_uint64(&self) -> Option<u64> {
         match self {
             Constant::Bool(v) => Some(u64::from(*v)),
-            Constant::IntLiteral(v) if *v <= u64::MAX as i128 => Some(*v as u64),
+            Constant::IntLiteral(v) if *v >= 0 && *v <= u64::MAX as i128 => Some(*v as u64),
             Constant::Int32(v) if *v >= 0 => Some(*v as u64),
             Constant::UInt32(v) => Some(*v as u64),
             Constant::Int64(v) if *v >= 0 => Some(*v as u64),
